@@ -6,7 +6,7 @@ from __future__ import annotations
 from typing import Any
 
 from kopfsim import runner
-from kopfsim.props import changes, common
+from kopfsim.props import changes, common, spawning
 from kopfsim.search import Chooser, Outcome
 
 ID = 'C14'
@@ -33,6 +33,18 @@ def gen_plan(ch: Chooser, tier: str) -> dict[str, Any]:
         op['handlers'].append({'id': 'r1', 'kind': 'resume', 'opts': {},
                                'script': common.gen_script(ch, max_failures=2)})
     horizon = plan['faults_stop']
+    if ch.bool(0.3):
+        # a resume handler with a label criterion that the objects meet only later, long after the start: resuming
+        # is a phase at the start of the process, not a standing offer
+        rh = next(h for h in op['handlers'] if h['kind'] == 'resume')
+        rh.setdefault('opts', {})['labels'] = {'res': 'yes'}
+        names_ = sorted({o['body']['metadata']['name'] for o in plan['objects']} |
+                        {a['body']['metadata']['name'] for a in plan['actions'] if a['do'] == 'create'})
+        for name_ in names_:
+            if ch.bool(0.7):
+                plan['actions'].append({'t': round(ch.float(horizon * 0.3, horizon + 10.0), 6), 'do': 'patch', 'name': name_,
+                                        'patch': {'metadata': {'labels': {'res': 'yes'}}}, 'essential': True})
+        horizon = plan['faults_stop'] = max(horizon, max(a['t'] for a in plan['actions']))
     for _ in range(ch.int(1, 4)):
         t = ch.float(2.0, horizon)
         how = ch.choice(['relist', 'relist', 'reset', 'eof'])
@@ -104,6 +116,24 @@ def oracle(run: runner.Run, oc: Outcome) -> None:
                                    f"resume handler {hid} (no deleted=True) ran for {uid}@{c.rv} in process {actor} although "
                                    f"that view carries a deletion mark", uid=uid, hid=hid)
                             break
+                # ... and only in the resuming phase: once a step of this process has left the object with nothing
+                # pending (the first cycle is over -- with or without handlers selected), resume handlers are out
+                phase_over = None
+                for s_ in ss:
+                    if phase_over is None and s_.how == 'returned' and s_.etype != 'DELETED':
+                        # (the state of the object on the server when the step ended, not the possibly older view of it)
+                        after_ = next((t_.after for t_ in reversed(run.transitions)
+                                       if t_.uid == uid and t_.after is not None and s_.t1 is not None and t_.t <= s_.t1), None)
+                        if after_ is not None and not st.records(after_) and not any(c.hkind in common.CHANGE_KINDS and
+                                                                                     c.outcome is None for c in s_.calls):
+                            phase_over = s_
+                            continue
+                    if phase_over is not None and any(c.hid == hid for c in s_.calls) \
+                            and not common.late_echoes(run, 0.9 * float(spec['settings'].get('consistency_timeout', 5.0))):
+                        oc.add('C14/not-eligible', 'after-the-resuming-phase',
+                               f"resume handler {hid} ran for {uid}@{s_.rv} in process {actor} at t={s_.t0:.3f} although the "
+                               f"object's first cycle in this process was over at t={phase_over.t1}", uid=uid, hid=hid)
+                        break
                 if calls and not listed_first:
                     oc.add('C14/not-eligible', 'first-seen-by-event',
                            f"resume handler {hid} ran for {uid} in process {actor} although the object was first seen "
@@ -113,7 +143,7 @@ def oracle(run: runner.Run, oc: Outcome) -> None:
                     continue
                 meta = first_view.get('metadata') or {}
                 eligible = st.last_handled(first_view) is not None and meta.get('deletionTimestamp') is None \
-                    and not st.records(first_view)
+                    and not st.records(first_view) and spawning.matches(h, first_view)
                 t_last = oper.t_killed or (oper.exit[0] if oper.exit else None) or oper.t_stop_requested or run.sim.now
                 lived = t_last - first.t0
                 gone = any(s.etype == 'DELETED' or (s.reason in ('delete', 'free')) for s in ss) or \
